@@ -375,6 +375,41 @@ func propC06(j *Job) {
 			}
 		}
 	}
+	// T8: a timed message of 8 fragments needs two congestion-window flights; the round trip is
+	// longer than the lifetime, so the second flight is first sent after the message expired and
+	// its lost fragments must not be retransmitted.
+	for _, mode := range modes {
+		mtu := uint32(100)
+		il := !mode.A.NoInterleave
+		P := int(maxPayloadSizeForMTU(mtu, il))
+		lives := []uint32{300, 900}
+		if j.Thorough() {
+			lives = []uint32{300, 500, 700, 900, 1100, 1500}
+		}
+		for _, life := range lives {
+			for _, lost := range [][]int{{5, 6, 7}, {4}, {5}, {0, 6}} {
+				var kills []killRule
+				for _, f := range lost {
+					kills = append(kills, killRule{SID: 1, Msg: 0, Frag: f, N: 2})
+				}
+				spec := &xferSpec{
+					A: withBase(mode.A, mtu, 0xFFFFFFFA, 4000), B: withBase(mode.B, mtu, 50, 4000),
+					Delay: 250 * time.Millisecond,
+					Streams: []streamSpec{
+						{SID: 1, From: 0, RelType: ReliabilityTypeTimed, RelVal: life, Msgs: []msgSpec{{Size: 7*P + 5, PPI: 53}, {Size: 9, PPI: 51}}},
+						{SID: 2, From: 0, Msgs: []msgSpec{{Size: 30, PPI: 53}}},
+					},
+					Faults: faultSet{Drop: true, Late: true},
+					Kill:   kills,
+				}
+				k := 0
+				if j.Thorough() {
+					k = 1
+				}
+				cases = append(cases, xferCase{Name: fmt.Sprintf("T8/%s/life%d/lost%v", mode.Name, life, lost), K: k, Spec: spec})
+			}
+		}
+	}
 	runCases(j, cases, func(spec *xferSpec) func(m *Sim, x *Exec, r *xferResult) { return prFinal(spec, false) })
 }
 
@@ -447,5 +482,51 @@ func propC07(j *Job) {
 		}
 	}
 	cases = append(cases, famW5(modes, 2)...)
+	cases = append(cases, famM1(modes, j.Thorough())...)
 	runCases(j, cases, func(spec *xferSpec) func(m *Sim, x *Exec, r *xferResult) { return prFinal(spec, true) })
+}
+
+// famM1: three streams share the TSN space round-robin: an unreliable stream loses a message
+// (abandoned), a second unreliable stream loses nothing, and a reliable stream loses one first
+// transmission right behind, so the skip point stops between messages of the healthy stream:
+// the FORWARD-TSN then names sequence numbers its receiver has already delivered.
+func famM1(modes []modeSpec, thorough bool) []xferCase {
+	var out []xferCase
+	for _, mode := range modes {
+		mtu := uint32(100)
+		for _, gap := range []time.Duration{0, 300 * time.Millisecond} {
+			for _, lost := range [][2]int{{0, 0}, {0, 1}, {1, 1}} {
+				for _, un := range []bool{false, true} {
+					if un && !thorough {
+						continue
+					}
+					mk := func(n, size int) []msgSpec {
+						var ms []msgSpec
+						for i := 0; i < n; i++ {
+							ms = append(ms, msgSpec{Size: size + i, PPI: 53})
+						}
+						return ms
+					}
+					spec := &xferSpec{
+						A: withBase(mode.A, mtu, 0xFFFFFFF7, 4000), B: withBase(mode.B, mtu, 50, 4000),
+						Streams: []streamSpec{
+							{SID: 3, From: 0, Unordered: un, RelType: ReliabilityTypeRexmit, RelVal: 0, Msgs: mk(3, 58)},
+							{SID: 1, From: 0, RelType: ReliabilityTypeRexmit, RelVal: 0, Msgs: mk(5, 61)},
+							{SID: 2, From: 0, Msgs: mk(3, 64)},
+						},
+						Faults:     faultSet{Drop: true, Late: true, Swap: true},
+						Interleave: true,
+						WriteGap:   gap,
+						Kill:       []killRule{{SID: 3, Msg: lost[0], Frag: -1, N: 1}, {SID: 2, Msg: lost[1], Frag: -1, N: 1}},
+					}
+					k := 0
+					if thorough || (gap == 0 && lost == [2]int{0, 0}) {
+						k = 1
+					}
+					out = append(out, xferCase{Name: fmt.Sprintf("M1/%s/gap%v/lost%v/U%v", mode.Name, gap, lost, un), K: k, Spec: spec})
+				}
+			}
+		}
+	}
+	return out
 }
